@@ -1095,12 +1095,16 @@ func (e *Exec) mapRead(m, k string, valT types.Type) Val {
 	case kBool:
 		return bv(mkAnd(has, mkSelect(mkSelect(e.heapGet(ks[0].key, ks[0].sort), m), k)))
 	case kSlice:
-		g := func(i int) string { return mkIte(has, mkSelect(mkSelect(e.heapGet(ks[i].key, ks[i].sort), m), k), "0") }
-		s := SliceV{Base: g(0), Off: g(1), Len: g(2)}
+		// (header parts of a slice read from a map are long ite terms: name them, so that offsets and bases built on
+		// them stay short and comparable across heap versions)
+		g := func(i int, hint string) string {
+			return e.nameTerm(hint, mkIte(has, mkSelect(mkSelect(e.heapGet(ks[i].key, ks[i].sort), m), k), "0"), SInt)
+		}
+		s := SliceV{Base: g(0, "mv.b"), Off: g(1, "mv.o"), Len: g(2, "mv.l")}
 		s.Cap = s.Len
 		return s
 	default:
-		return iv(mkIte(has, mkSelect(mkSelect(e.heapGet(ks[0].key, ks[0].sort), m), k), "0"))
+		return iv(e.nameTerm("mv", mkIte(has, mkSelect(mkSelect(e.heapGet(ks[0].key, ks[0].sort), m), k), "0"), SInt))
 	}
 }
 
